@@ -12,9 +12,11 @@ UNENFORCED = ("minimum", "maximum", "exclusiveMinimum", "exclusiveMaximum", "mul
               "minProperties", "maxProperties", "propertyNames", "const", "contains", "description", "title", "default")
 
 
-def strip_unenforced(doc):
+def strip_unenforced(doc, _defs_override=None):
     """The schema reduced to the constraints typify represents in types (the property's list)."""
-    defs = doc.get("definitions", {})
+    # nullability of a required member is judged on the definitions as typify reads them ('exactly one' of a
+    # oneOf is not represented, so oneOf[oneOf[.., null], null] IS nullable): first pass without the required rule
+    defs = doc.get("definitions", {}) if _defs_override is None else _defs_override
 
     def f(s):
         s = dict(s)
@@ -41,7 +43,10 @@ def strip_unenforced(doc):
             s["required"] = keep
         return s
 
-    return oracle.map_schema(copy.deepcopy(doc), f)
+    out = oracle.map_schema(copy.deepcopy(doc), f)
+    if _defs_override is None:
+        return strip_unenforced(doc, _defs_override=out.get("definitions", {}))
+    return out
 
 
 def syn_scan(res):
